@@ -84,8 +84,8 @@ func (db *GraphDB) AddGraph(graph string) error {
 	vertexTable := fmt.Sprintf("%s_vertices", sanitizedName)
 	edgeTable := fmt.Sprintf("%s_edges", sanitizedName)
 
-	stmt := fmt.Sprintf("INSERT INTO graphs (graph_name, sanitized_graph_name, vertex_table, edge_table) VALUES ('%s', '%s', '%s', '%s') ON CONFLICT DO NOTHING", graph, sanitizedName, vertexTable, edgeTable)
-	_, err = db.db.Exec(stmt)
+	stmt := "INSERT INTO graphs (graph_name, sanitized_graph_name, vertex_table, edge_table) VALUES ($1, $2, $3, $4) ON CONFLICT DO NOTHING"
+	_, err = db.db.Exec(stmt, graph, sanitizedName, vertexTable, edgeTable)
 	if err != nil {
 		return fmt.Errorf("inserting row into graphs table: %v", err)
 	}
@@ -137,9 +137,9 @@ type graphInfo struct {
 }
 
 func (db *GraphDB) getGraphInfo(graph string) (*graphInfo, error) {
-	q := fmt.Sprintf("SELECT * FROM graphs where graph_name='%s'", graph)
+	q := "SELECT * FROM graphs where graph_name=$1"
 	info := make(map[string]interface{})
-	err := db.db.QueryRowx(q).MapScan(info)
+	err := db.db.QueryRowx(q, graph).MapScan(info)
 	if err != nil {
 		return nil, fmt.Errorf("querying graphs table: %v", err)
 	}
@@ -170,8 +170,8 @@ func (db *GraphDB) DeleteGraph(graph string) error {
 		return fmt.Errorf("DeleteGraph: dropping edge table: %v", err)
 	}
 
-	stmt = fmt.Sprintf("DELETE FROM graphs where graph_name='%s'", graph)
-	_, err = db.db.Exec(stmt)
+	stmt = "DELETE FROM graphs where graph_name=$1"
+	_, err = db.db.Exec(stmt, graph)
 	if err != nil {
 		return fmt.Errorf("DeleteGraph: deleting row from graphs table: %v", err)
 	}
